@@ -124,8 +124,16 @@ CHECKS = {
             "cross-party flow is an operation of the same state machine (the holder of a delegated role edits and signs "
             "elsewhere, update_delegated_targets: accepted only with the delegating role's threshold of distinct authorised "
             "signatures and a version not lower, the role then holds the incoming document, C10_update_checked) and programs "
-            "containing it are covered by C10_program_roundtrip (C10_cross_party_example). Not modelled: update_delegated_targets "
-            "on the top-level role or bringing new delegated roles, add_role, target publication and download; these, odd names, "
+            "containing it are covered by C10_program_roundtrip (C10_cross_party_example). Publication against download from a local repository (Model/Url.v: "
+            "Path::join of the file name on the output directory; Url::join on the targets base URL as the url crate's parser "
+            "performs it, FilesystemTransport opening the URL path as it stands): for every plain file name the file that is "
+            "opened is the file that was put, whatever else the directory holds (C10_published_target_found, "
+            "C10_published_target_undisturbed); the complement of the Coq predicate url_plain is the known class "
+            "url_encoded_target_name (C10_url_known_class_witnesses: not found, encoded dots leave the directory, a question "
+            "mark cuts the name, a colon makes it a URL); url_join and put-then-fetch are compared with the url crate, a real "
+            "directory and the real FilesystemTransport on about 3 300 names per run. Not modelled: update_delegated_targets "
+            "on the top-level role or bringing new delegated roles, add_role, the digest check and the copy/symlink choice of "
+            "target_path; these, odd names, "
             "copy/symlink publication are covered by the correspondence runs with an independent Python tracker of what was "
             "put in. Known finding: url_encoded_target_name.",
             NOTE + MODELLED + " The Gallina models of sign + write (ed_sign, ed_sign_tree) are executed on every run against "
@@ -183,7 +191,9 @@ CHECKS = {
             "encode_filename/filename; model tied to the code by running both on every name up to length 3 (4 "
             "thorough) over the property's alphabet plus random names to length 64; independent injectivity and "
             "plain-entry oracle on the implementation's own outputs.",
-            NOTE + " Modelled not verified: percent_encoding crate, Url::join on such segments.", "5/C16"),
+            NOTE + " Modelled not verified: percent_encoding crate; Url::join / Url::path as re-stated in Model/Url.v "
+            "(C16_file_url_opens_entry: the file a local client opens for a role's file name is that entry of the metadata "
+            "directory; url_join compared with the url crate on every file name of the run).", "5/C16"),
     "C17": ("Coq proof about the carry-over semantics of the editor's update path (entries merge, delegations, extras); "
             "end-to-end correspondence: from_repo -> bump -> add -> sign -> write, metadata compared member by member",
             "Theorem: an update changes nothing but the entries deliberately added (an added name overrides), keeps the "
@@ -217,8 +227,11 @@ CHECKS = {
             "chunking (C19_cached_target_reads_back, composing C08 and C06). Partial: that the real cache writes those files "
             "(its own size limits and the presence of every <v>.root.json on the source are not modelled: a cache that fails "
             "is outside the theorems) is established by the runs (odd role and target names incl. names that need "
-            "resolution, subsets, root chains, corrupted sources, both settings, directory listings). "
-            "Known finding: url_encoded_target_name.",
+            "resolution, subsets, root chains, corrupted sources, both settings, directory listings). A client whose "
+            "targets base URL names the cache's targets directory finds a cached target under a plain file name, and finds "
+            "the signed content (C19_cached_target_served, Model/Url.v: Url::join + FilesystemTransport against Path::join, "
+            "compared with the url crate and a real directory on every run). "
+            "Known finding: url_encoded_target_name (the complement of the Coq predicate url_plain).",
             NOTE + MODELLED, "5/C19"),
     "C12": ("Coq proofs about a schema-level model of serde parse-and-reserialise (project) and the canonical formatter, "
             "including injectivity of the canonical form; differential correspondence between model and implementation "
